@@ -1,3 +1,18 @@
+from typing import Any
+
+
+def response_text(response: Any) -> str:
+    """Body of an error response as text, for use as an exception message.
+
+    `response.text` raises when the charset named by the Content-Type cannot decode the body (e.g. a BOM-less
+    UTF-16 body); the error must not be lost to that, so such a body is decoded as UTF-8 with replacement characters.
+    """
+    try:
+        return str(response.text)
+    except Exception:  # undecodable or mislabelled body
+        return bytes(response.content).decode("utf-8", errors="replace")
+
+
 class HTTPError(Exception):
     """Base HTTP error with status code and message."""
 
